@@ -19,10 +19,11 @@ THEOREMS = [A + x for x in (
     "prune_keeps_only_forking_thread", "unmap_only_when_empty", "inv_step", "capsOk_step",
     "init_reader_count_pos",
     "Sig.registration_signal_atomic", "Sig.never_registered_twice", "Sig.registry_lock_never_self_deadlocks",
-    "Sig.section_has_reader", "Sig.stuck_only_on_init_lock", "Sig.signal_safe_full_false",
-    "Sig.norecheck_registers_twice", "Sig.unmask_early_self_deadlocks", "Sig.inv_step")]
-# full statement that is FALSE for the code as it is (its negation is the theorem Sig.signal_safe_full_false)
-UNPROVED = ["UrcuVerif.BpArena.Sig.signal_safe_full (refuted: Sig.signal_safe_full_false — finding bp-exit-signal-initlock-deadlock)"]
+    "Sig.init_lock_never_self_deadlocks", "Sig.section_has_reader", "Sig.signal_safe", "Sig.inv_step",
+    # the code before /repo 760a93b (Lean record of the repaired finding) and the necessity witnesses
+    "Sig.stuck_only_on_init_lock_unfixed", "Sig.signal_safe_full_false_unfixed", "Sig.Unfixed.inv_step",
+    "Sig.norecheck_registers_twice", "Sig.unmask_early_self_deadlocks")]
+UNPROVED = []   # every stated property is proved at full strength on the models
 TRUSTED = [
     "bp arena: slot identity (chunk position, index) stands for the address: chunks are only appended to chunk_list, "
     "mmap regions are disjoint, a successful mremap(old, .., flags=0) does not move (OS contract; the harness compares "
@@ -35,8 +36,6 @@ TRUSTED = [
     "pthread_setspecific/pthread_key_*/pthread_self before #include \"urcu-bp.c\"; own bump allocator deciding the "
     "mremap outcome) + Driver/BpArena.lean; bounded: the runs listed in coverage",
 ]
-FINDING_KEY = "bp-exit-signal-initlock-deadlock"
-REPORT_EXIT_DEADLOCK = True   # False: only record the finding in the evidence, do not raise it through chk.fail
 
 BIN = os.path.join(vlib.BUILD, "bp_arena")
 DRV = os.path.join(vlib.LEAN, ".lake", "build", "bin", "drv_bparena")
@@ -96,16 +95,18 @@ def plan(chk):
     return runs
 
 
-def directed_finding(cov):
-    """the signal-in-urcu_bp_exit self-deadlock, reproduced on the real code and confirmed on the model"""
-    res = {}
-    for which, name in ((0, "urcu_bp_exit on the thread-exit path"), (1, "_urcu_bp_init with signals open")):
-        v, d, dout = run_one(["dl", which])
-        res[name] = {"verdict": v, "detail": d}
-    cov["finding_directed_runs"] = res
-    r0 = res["urcu_bp_exit on the thread-exit path"]
-    reproduced = r0["verdict"] == "deadlock" and "model_confirms_self_deadlock_init_lock=1" in " ".join(r0["detail"].get("driver", []))
-    return reproduced, r0
+def directed(cov):
+    """Regression for the defect repaired by /repo 760a93b (signal while urcu_bp_exit() holds init_lock on the
+    thread-exit path): must pass on the current tree.  The constructor-situation variant (`dl 1`: _urcu_bp_init() called
+    with signals open) is recorded as an observation only."""
+    v, d, dout = run_one(["dl", 0])
+    cov["directed_signal_in_urcu_bp_exit"] = {"verdict": v, "detail": d}
+    v1, d1, _ = run_one(["dl", 1])
+    cov["observation_signal_in_constructor_time_init"] = {
+        "verdict": v1, "oracle": d1.get("oracle", []),
+        "note": "a handler using RCU that interrupts _urcu_bp_init() while it holds init_lock with signals open (library "
+                "constructor, single-threaded load time) would self-deadlock; not part of the property, no check failure"}
+    return v, d
 
 
 def run_part(chk):
@@ -168,7 +169,10 @@ def run_part(chk):
         else:
             # correspondence broken: look for a concrete failing input with the oracle on more sequences
             found = None
-            for k in range(400 if chk.tier == "quick" else 4000):
+            vd, dd, _ = run_one(["dl", 0])
+            if vd in ("oracle", "deadlock", "crash"):
+                found = (vd, dd, "dl")
+            for k in range(0 if found else (400 if chk.tier == "quick" else 4000)):
                 for m in ("sim", "thr"):
                     v2, d2, _ = run_one([m, chk.seed * 100000 + 70000 + k, 900])
                     if v2 in ("oracle", "deadlock", "crash"):
@@ -178,29 +182,20 @@ def run_part(chk):
                     break
             if found:
                 v2, d2, m = found
-                chk.fail("input", dict(d2, scenario="bp_arena " + m, first_divergence=info,
+                chk.fail("input", dict(d2, scenario="bp_arena " + (m if m != "dl" else "dl 0"), first_divergence=info,
                                        what="implementation oracle: " + "; ".join(d2.get("oracle", [d2.get("stderr", "crash")]))))
             else:
                 chk.fail("divergence", dict(info, correspondence="Driver/BpArena.lean vs src/urcu-bp.c",
                                             what="implementation no longer behaves as a run of the proven model"), nofail=True)
         return
-    # the finding: directed signal while urcu_bp_exit() holds init_lock
-    reproduced, r0 = directed_finding(cov)
-    cov["finding"] = {"key": FINDING_KEY, "reproduced_on_real_code": reproduced,
-                      "what": "a signal delivered while the exit notifier is inside urcu_bp_exit() (init_lock held, mask already "
-                              "restored by urcu_bp_unregister) whose handler calls rcu_read_lock() re-registers and self-deadlocks "
-                              "on init_lock; Lean: Sig.stuck_only_on_init_lock, Sig.signal_safe_full_false"}
-    if reproduced:
-        if REPORT_EXIT_DEADLOCK:
-            chk.fail("input", dict(r0["detail"], scenario="bp_arena dl 0",
-                                   what="self-deadlock on init_lock: " + "; ".join(r0["detail"].get("oracle", []))), key=FINDING_KEY)
-    elif r0["verdict"] == "ok":
-        # the code no longer deadlocks there (repaired?): then the model of the exit path must change too; the random
-        # runs above would already have diverged if the order of calls changed
-        chk.notes.append("bp_arena: directed run `dl 0` no longer deadlocks; finding %s not reproduced" % FINDING_KEY)
-    else:
-        chk.fail("divergence", dict(r0["detail"], scenario="bp_arena dl 0",
-                                    what="directed signal run: implementation and model disagree"), nofail=True)
+    v, d = directed(cov)
+    if v != "ok":
+        info = dict(d, scenario="bp_arena dl 0")
+        if v in ("oracle", "deadlock", "crash"):
+            chk.fail("input", dict(info, what="signal raised while urcu_bp_exit() holds init_lock on the thread-exit path: "
+                                         + "; ".join(d.get("oracle", [d.get("stderr", "crash")]))))
+        else:
+            chk.fail("divergence", dict(info, what="directed signal run: implementation and model disagree"), nofail=True)
 
 
 def run(chk):
